@@ -869,3 +869,35 @@ Lemma fair_run_app k es1 e es2 l : fair_run k l (es1 ++ e :: es2) -> fair_step (
 Proof.
   unfold lrun. revert l. induction es1 as [|x es1 IH]; intros l F; cbn in *; [apply F|]. apply IH, F.
 Qed.
+
+(* ------------------------------------------------------------------ *)
+(* The remaining stall: a lost window update (witness of the known class) *)
+Definition kc := mkcfg 1500 65536 64 8 4 3 5.
+Definition tA := mktcb Established nowhere 101 101 8 201 [] [] false false None false false 0 0.
+Definition tB := mktcb Established nowhere 201 201 8 101 [] [] false false None false false 0 0.
+Definition c_sync := mkconn tA tB [] [] [] [] [].
+Definition stall_pre :=
+  [CWrite SA [1;2;3;4;5;6;7;8;9;10;11;12;13;14;15;16;17;18;19;20]; CSegment SA 1460 30; CDeliver 0; CDrop 0;
+   CDeliver 0; CDrop 0; CRead SB 1].
+Definition stall_post := [CRead SB 1; CRead SB 1; CRead SB 1; CRead SB 1; CRead SB 1; CRead SB 1; CRead SB 1].
+Definition stall_script := Eval cbv in stall_pre ++ CDrop 0 :: stall_post.
+
+Lemma window_update_lost_lemma :
+  established_start c_sync /\ Forall no_inject stall_script /\ ~ fair_run kc (linit c_sync) stall_script /\
+  let c := crun kc c_sync stall_script in
+  zero_window_stall c /\ rb c = [1;2;3;4;5;6;7;8] /\ len (wa c) = 20 /\
+  (forall es, Forall env_event es -> crun kc c es = c).
+Proof.
+  split; [vm_compute; repeat split; try discriminate; try reflexivity; intros d g []|].
+  split; [repeat constructor|].
+  split.
+  { intros F. change stall_script with (stall_pre ++ CDrop 0 :: stall_post) in F.
+    apply fair_run_app in F. revert F. vm_compute. intros F.
+    assert (exists g, Some (mkg SA 1 true) = Some g /\ g_upd g = true) as X by (eexists; split; reflexivity).
+    destruct (F X) as [H|[H|[]]]; discriminate H. }
+  assert (zero_window_stall (crun kc c_sync stall_script)) as Z.
+  { vm_compute. repeat split; discriminate. }
+  split; [exact Z|]. split; [vm_compute; reflexivity|]. split; [vm_compute; reflexivity|].
+  intros es F. apply stall_forever; assumption.
+Qed.
+
